@@ -241,7 +241,7 @@ func c11ClassifyLoop(c *Ctx, fn *ssa.Function, ml mapLoop) {
 						if ia, ok := u.X.(*ssa.IndexAddr); ok {
 							for _, r := range *x.Referrers() {
 								if st, ok := r.(*ssa.Store); ok {
-									if ia2, ok := st.Addr.(*ssa.IndexAddr); ok && ia2.X == ia.X {
+									if ia2, ok := st.Addr.(*ssa.IndexAddr); ok && sameLoadedValue(ia2.X, ia.X) {
 										slot = true
 									}
 								}
@@ -327,6 +327,40 @@ func c11ClassifyLoop(c *Ctx, fn *ssa.Function, ml mapLoop) {
 			c.check(keyOK, "C11.2", where+":sort-key-total", pos, where+": the sort key is the quoted import path, which is unique per map key (total order, no ties)", "comparator reads ImportSpec.Path.Value")
 		}
 	}
+}
+
+// sameLoadedValue: a and b are the same value, or two loads of one local cell (a variable captured by a closure is spilled to a
+// cell and reloaded at each use) in one block with no store to that cell between them.
+func sameLoadedValue(a, b ssa.Value) bool {
+	if a == b {
+		return true
+	}
+	la, okA := a.(*ssa.UnOp)
+	lb, okB := b.(*ssa.UnOp)
+	if !okA || !okB || la.Op != token.MUL || lb.Op != token.MUL || la.Block() != lb.Block() {
+		return false
+	}
+	al := allocOf(la.X)
+	if al == nil || allocOf(lb.X) != al {
+		return false
+	}
+	i, j := instrIndex(la), instrIndex(lb)
+	if i > j {
+		i, j = j, i
+	}
+	for _, in := range la.Block().Instrs[i:j] {
+		switch x := in.(type) {
+		case *ssa.Store:
+			if allocOf(x.Addr) == al {
+				return false
+			}
+		case *ssa.Call:
+			if _, bi := x.Common().Value.(*ssa.Builtin); !bi {
+				return false // a call may run the closure that captured the cell
+			}
+		}
+	}
+	return true
 }
 
 // derivesFrom: v is the append result or a phi/append chain containing it.
